@@ -13,5 +13,6 @@ CONSTANTS
   SCAN_NO_ENTRY_CHECK = TRUE
   SCAN_DUP = FALSE
   ISCAN_NO_REWIND = FALSE
+  SCAN_FRESH_VERSION = FALSE
 INVARIANTS LinOK ScanOK NvOK RootOpsOK Quiescent
 PROPERTY Termination
